@@ -85,6 +85,34 @@ theorem tokenize_lossless (str : Bytes) (h0 : str.head? ≠ some 34) :
 example : Gen.tokenize [46, 97, 91, 34, 46, 34, 93] = .ok ([[46, 97], [91, 34, 46, 34, 93]], true) := by
   rw [tokenize_eq _ (by decide)]; exact congrArg _ (by decide)
 
+/-- C19, on the regenerated `EncryptWithKey` / `DecryptStringWithKey` alone: under the secretbox contract (`Open` inverts `Seal`
+for the same key and nonce) and a random source that delivers 24 bytes, what was encrypted under a valid key decrypts to the same
+bytes under that key; and whatever `Open` refuses (another key, a modified box or nonce) is an error -/
+theorem secretbox_roundtrip (randRead : Nat → GoM Bytes) (sealFn : Bytes → Bytes → Bytes → Bytes)
+    (openFn : Bytes → Bytes → Bytes → (Bytes × Bool)) (hso : ∀ k n m, openFn k n (sealFn k n m) = (m, true))
+    (key : Option Bytes) (k nonce data c : Bytes) (hk : Meta.validateKey key = .ok k)
+    (hr : randRead 24 = .ok nonce) (hn : nonce.length = 24)
+    (h : Gen.EncryptWithKey randRead sealFn data key = .ok c) :
+    Gen.DecryptStringWithKey openFn c key = .ok data := by
+  rw [EncryptWithKey_eq, hk] at h
+  simp only [hr, bind, Except.bind, Meta.encrypt, hk, Except.mapError] at h
+  have hc : c = nonce ++ sealFn k nonce data := (Except.ok.inj h).symm
+  subst hc
+  rw [DecryptStringWithKey_eq]
+  have hlen : ¬ (nonce ++ sealFn k nonce data).length < Meta.nonceSize := by simp [Meta.nonceSize, hn]
+  have h1 : (nonce ++ sealFn k nonce data).take Meta.nonceSize = nonce := by rw [Meta.nonceSize, ← hn]; simp
+  have h2 : (nonce ++ sealFn k nonce data).drop Meta.nonceSize = sealFn k nonce data := by rw [Meta.nonceSize, ← hn]; simp
+  have hlen' : ¬ (nonce.length + (sealFn k nonce data).length < Meta.nonceSize) := by simpa using hlen
+  simp [Meta.decrypt, hk, hlen', h1, h2, openOpt, hso, Except.mapError]
+
+theorem secretbox_refusal_is_error (openFn : Bytes → Bytes → Bytes → (Bytes × Bool)) (key : Option Bytes) (k c : Bytes)
+    (hk : Meta.validateKey key = .ok k) (hl : 24 ≤ c.length) (hr : (openFn k (c.take 24) (c.drop 24)).2 = false) :
+    ∃ e, Gen.DecryptStringWithKey openFn c key = .error e := by
+  rw [DecryptStringWithKey_eq]
+  have h24 : ¬ c.length < 24 := by omega
+  refine ⟨metaErr .decryption, ?_⟩
+  simp [Meta.decrypt, hk, h24, Meta.nonceSize, openOpt, hr, Except.mapError]
+
 variable {D C A : Type} [DecidableEq D]
 
 /-- C04, on the regenerated `delegation.Token.IsValidAt`: valid strictly inside the window, invalid strictly outside -/
